@@ -488,12 +488,11 @@ class BaseProvider:
         Returns:
           List of instances in repository that represent classname
         """
-        classnames = NocaseList(classname)
         instance_store = self.cimrepository.get_instance_store(namespace)
 
         insts = [self._get_bare_instance(inst.path, instance_store)
                  for inst in instance_store.iter_values()
-                 if inst.path.classname in classnames]
+                 if inst.path.classname.lower() == classname.lower()]
         return insts
 
     @staticmethod
